@@ -541,17 +541,17 @@ def rule_flush(F, rep):
 def run(F, rep, tier):
     R = rep.rule("C17.R1", "tie-break / advance decision tables of merge, partition, minArray, maxArray and the set "
                  "walks equal the ones the contracts require (stability, first-minimal/maximal, union/inter/diff)")
-    rule_merge(F, rep, R)
-    rule_partition(F, rep, R)
-    rule_minmax(F, rep, R)
-    rule_sets(F, rep, R)
+    rep.attempt(rule_merge, F, rep, R)
+    rep.attempt(rule_partition, F, rep, R)
+    rep.attempt(rule_minmax, F, rep, R)
+    rep.attempt(rule_sets, F, rep, R)
     rep.floor(R, rep.rules[R]["obligations"], 20, "table rows")
-    rule_member(F, rep)
-    rule_pivot(F, rep)
-    rule_flush(F, rep)
+    rep.attempt(rule_member, F, rep)
+    rep.attempt(rule_pivot, F, rep)
+    rep.attempt(rule_flush, F, rep)
     from . import c08
-    c08.rule_r4(F, rep)      # the ordering primitive the sort/set walks pop their `Ordering` from: array state machines
-    c08.rule_r4b(F, rep)
+    rep.attempt(c08.rule_r4, F, rep)      # the ordering primitive the sort/set walks pop their `Ordering` from: array state machines
+    rep.attempt(c08.rule_r4b, F, rep)
     rep.assume("permutation, orderedness and set algebra over values are not decided (value-level); the comparison "
                "itself is C08; spurious stack-overflow of the key loops is C10")
     return EXPLANATION
